@@ -118,9 +118,14 @@ ForwardClauses(ev) ==
         (b.ok /\ whole # {}) => ~\E i \in DOMAIN outs : outs[i].b.id = b.id),
     C({"C11"}, "PrimaryBlockUnchanged", whole # {} => \A id \in whole : hist[id].b.prim = b.prim),
     C({"C11"}, "PayloadUnchanged", whole # {} => \A id \in whole : hist[id].b.pay = b.pay /\ hist[id].b.paylen = b.paylen),
+    \* (stated for bundles forwarded as they are; of the fragments made here only the first carries the
+    \* blocks that are not replicated, the Previous Node block among them)
     C({"C11"}, "ExactlyOnePreviousNodeNamingThisNode",
-        cands # {} => /\ Cardinality(BlocksOfKind(b, "prev")) = 1
+        whole # {} => /\ Cardinality(BlocksOfKind(b, "prev")) = 1
                       /\ \A i \in BlocksOfKind(b, "prev") : b.blocks[i].eid = scen.node),
+    C({"C11"}, "NoForeignPreviousNodeOnFragmentsMadeHere",
+        (cands # {} /\ whole = {}) => /\ Cardinality(BlocksOfKind(b, "prev")) <= 1
+                                       /\ \A i \in BlocksOfKind(b, "prev") : b.blocks[i].eid = scen.node),
     C({"C11"}, "EveryHopCountIncrementedByOne",
         whole # {} => \A id \in whole :
             Hops(b) = {[num |-> h.num, limit |-> h.limit, count |-> h.count + 1] : h \in Hops(hist[id].b)}),
